@@ -460,22 +460,22 @@ def general(tier, seed, pid, modes=("debug",)):
     return [(m, corpus(m, pid) + general_cases(tier, seed, m)) for m in modes]
 
 PROPS = {
-    "C01": {"modules": ["MiniVecProof.Props.C01"],
+    "C01": {"modules": ["MiniVecProof.Props.C01", "MiniVecProof.Props.C01Loops", "MiniVecProof.Props.C12IntoIter", "MiniVecProof.Props.C10DrainFilter"],
             "cases": lambda tier, seed: general(tier, seed, "C01") + [("release", boundary_grid("release"))],
             "owned_oracles": ["O vec-mismatch", "macro-evals", "X signal"], "owned_diffs": ["result", "contents", "panic", "crash"],
-            "partial_missing": ["refinement to Vec semantics proved for every history over push, pop, insert, remove, swap_remove, truncate, clear, retain (any predicate), reserve, reserve_exact, shrink_to, shrink_to_fit (C01_refines_vec_partial); every other operation of the property (resize, extend family, append, split_off, dedup, Splice/DrainFilter iterators, clone, conversions, macro) is tied to Vec and to the model by the three-way correspondence only"]},
-    "C02": {"modules": ["MiniVecProof.Props.C02", "MiniVecProof.Props.C10", "MiniVecProof.Props.C10IntoIter"],
+            "partial_missing": ["refinement to Vec semantics proved for every history over push, pop, insert, remove, swap_remove, truncate, clear, retain (any predicate), reserve, reserve_exact, shrink_to, shrink_to_fit (C01_refines_vec_partial); separately proved value-for-value: extend_from_slice, resize, resize_with (any generator) (C01Loops), From<&[T]> (C01_from_slice_partial), clone, extend/collect, dedup*, Drain, IntoIter, DrainFilter (any predicate); append, split_off, drain_vec, splice, extend_from_within, remove_item, the macro forms and the remaining conversions are tied to Vec and to the model by the three-way correspondence only"]},
+    "C02": {"modules": ["MiniVecProof.Props.C02", "MiniVecProof.Props.C10", "MiniVecProof.Props.C10IntoIter", "MiniVecProof.Props.C10DrainFilter"],
             "cases": lambda tier, seed: [(m, c + raw_natural_cases(m)) for m, c in general(tier, seed, "C02")],
             "owned_oracles": ["O ledger", "X signal"], "owned_diffs": ["own", "crash"],
-            "partial_missing": ["exactly-once destruction and conservation proved for every completed history over the 12 operations of POp (incl. retain with any predicate) followed by Drop (C02_exactly_once_partial, C02_no_double_drop, C02_no_leak); for Drain and IntoIter dropped after any interleaving of steps: yielded front ++ destroyed ++ yielded back reversed = the selected range (specSteps_partition + C10_drain_partial / C10_into_iter_partial); Splice, DrainFilter and the remaining operations by correspondence + per-element ledger"]},
+            "partial_missing": ["exactly-once destruction and conservation proved for every completed history over the 12 operations of POp (incl. retain with any predicate) followed by Drop (C02_exactly_once_partial, C02_no_double_drop, C02_no_leak); for Drain and IntoIter dropped after any interleaving of steps: yielded front ++ destroyed ++ yielded back reversed = the selected range (specSteps_partition + C10_drain_partial / C10_into_iter_partial); DrainFilter: yielded ++ destroyed = accepted, vector = rejected (C10_drain_filter_partial); Splice and the remaining operations by correspondence + per-element ledger"]},
     "C03": {"modules": ["MiniVecProof.Props.C01", "MiniVecProof.Proofs.MemDrop", "MiniVecProof.Props.C09"],
             "cases": lambda tier, seed: [(m, c + huge_cases(m) + raw_natural_cases(m)) for m, c in general(tier, seed, "C03", modes=("debug", "release"))],
             "owned_oracles": ["O alloc", "O cap"], "owned_diffs": ["alloc", "ub", "crash"],
             "partial_missing": ["layout quoting proved for grow (every caller), Drop and IntoIter::drop; in-bounds access proved for the 11 operations of POp, Drain and IntoIter (every step and drop), clone, retain scan; others by correspondence + checking allocator"]},
-    "C04": {"modules": ["MiniVecProof.Props.C01"],
+    "C04": {"modules": ["MiniVecProof.Props.C04", "MiniVecProof.Props.C01"],
             "cases": lambda tier, seed: [("debug", corpus("debug", "C04") + panic_sweep(tier, seed, "debug"))],
             "owned_oracles": ["O ledger", "O alloc", "X signal 11"], "owned_diffs": ["own", "contents", "result", "panic", "alloc", "ub", "crash"],
-            "partial_missing": ["the theorems fix the panic oracle to never (hq); proved about unwinding: ownArgs destroys an owned argument exactly when the operation unwinds (push_spec/insert_spec stopped case) and rejected calls leave the vector untouched (C11_rejected_untouched); every user-callback panic point is decided by the exhaustive crash-point sweep of the correspondence"]},
+            "partial_missing": ["proved under an ARBITRARY panic oracle (any subset of the callbacks may panic): truncate, clear (C04_truncate_partial, C04_clear_partial: length cut before the first destructor, every doomed element destroyed once unless the double-panic abort) and retain with a panicking predicate or destructor (C04_retain_partial: what is exposed plus what was destroyed is a rearrangement of the contents); drop_in_place semantics dropAll_any; every other callback site (Drain/Splice/DrainFilter/IntoIter drop guards, clone, extend, dedup_by, resize_with, serde) is decided by the exhaustive crash-point sweep of the correspondence"]},
     "C05": {"modules": ["MiniVecProof.Props.C05"],
             "cases": lambda tier, seed: [("debug", corpus("debug", "C05") + forget_cases(tier, seed, "debug"))],
             "owned_oracles": ["O ledger", "O alloc", "X signal 11"], "owned_diffs": ["own", "contents", "result", "ub", "crash"],
@@ -497,11 +497,11 @@ PROPS = {
         "owned_diffs": ["result", "panic", "alloc", "cap", "crash", "ub"],
         "partial_missing": ["lifting of the generated-code theorems through the hand model for resize / resize_with / mini_vec![x; n] / extend_from_slice is by correspondence only"],
     },
-    "C10": {"modules": ["MiniVecProof.Props.C10", "MiniVecProof.Props.C10IntoIter", "MiniVecProof.Props.C06"],
+    "C10": {"modules": ["MiniVecProof.Props.C10", "MiniVecProof.Props.C10IntoIter", "MiniVecProof.Props.C10DrainFilter", "MiniVecProof.Props.C06"],
             "cases": lambda tier, seed: [("debug", corpus("debug", "C10") + iterator_cases(tier, seed, "debug") + lying_hint_cases("debug")),
                                          ("release", boundary_grid("release"))],
             "owned_oracles": ["O vec-mismatch", "X signal 11"], "owned_diffs": ["result", "contents", "ub", "crash"],
-            "partial_missing": ["proved for Drain on every storage state (C10_drain_partial): every interleaving of front/back steps yields what the list iterator over es[st..en] yields, exact counts, None for ever after the ends meet, vector untouched by steps, and drop leaves prefix ++ suffix destroying exactly the unyielded elements; proved for IntoIter on every storage state (C10_into_iter_partial): same protocol, exact len(), as_slice() = unyielded elements, drop destroys exactly those and frees the block with its layout; Splice, DrainFilter: yielded sequences and counts checked against std's iterators and the model by correspondence only"]},
+            "partial_missing": ["proved for Drain on every storage state (C10_drain_partial): every interleaving of front/back steps yields what the list iterator over es[st..en] yields, exact counts, None for ever after the ends meet, vector untouched by steps, and drop leaves prefix ++ suffix destroying exactly the unyielded elements; proved for IntoIter on every storage state (C10_into_iter_partial): same protocol, exact len(), as_slice() = unyielded elements, drop destroys exactly those and frees the block with its layout; proved for DrainFilter with ANY predicate (C10_drain_filter_partial, C10_drain_filter_default): any number of next() calls yields the accepted elements in order, drop leaves exactly the rejected ones; Splice: yielded sequences and counts checked against std's iterators and the model by correspondence only"]},
     "C11": {
         "modules": ["MiniVecProof.Props.C11"],
         "cases": lambda tier, seed: [("debug", corpus("debug", "C11") + argument_grid("debug")), ("release", argument_grid("release"))] if tier == "thorough"
@@ -509,24 +509,24 @@ PROPS = {
         "owned_oracles": ["accept-predicate", "rejected-unchanged", "X signal 11"],
         "owned_diffs": ["panic", "result"],
     },
-    "C12": {"modules": ["MiniVecProof.Props.C12", "MiniVecProof.Props.C10IntoIter"],
+    "C12": {"modules": ["MiniVecProof.Props.C12", "MiniVecProof.Props.C12IntoIter"],
             "cases": lambda tier, seed: [("debug", corpus("debug", "C12") + clone_cases(tier, seed, "debug") + clone_panic_cases("debug"))],
             "owned_oracles": ["O ledger", "O alloc", "X signal", "O vec-mismatch"], "owned_diffs": ["own", "contents", "result", "alloc", "ub", "crash", "panic"],
-            "partial_missing": ["proved: Clone for MiniVec returns a well-formed vector of value-equal clones in order with the source handle untouched, or stops in a sanctioned way (C12_clone_partial); IntoIter::as_slice (what IntoIter::clone copies) is exactly the unyielded elements (into_as_slice); IntoIter::clone, clone_from and independence under later mutation/drop in either order: correspondence with owning elements only"]},
+            "partial_missing": ["proved: Clone for MiniVec returns a well-formed vector of value-equal clones in order with the source handle untouched, or stops in a sanctioned way (C12_clone_partial); IntoIter::as_slice (what IntoIter::clone copies) is exactly the unyielded elements (into_as_slice); IntoIter::clone after any steps builds a fresh vector of value-equal clones of exactly the unyielded elements with its own cursor, original untouched (C12_into_iter_clone_partial); clone_from and independence under later mutation/drop in either order: correspondence with owning elements only (the model cannot share a block between two handles by construction)"]},
     "C14": {"modules": ["MiniVecProof.Props.C14"],
             "cases": lambda tier, seed: [("debug", corpus("debug", "C14") + raw_cases(tier, seed, "debug")), ("release", raw_cases(tier, seed, "release"))],
             "owned_oracles": ["O rawparts", "O cap", "O ledger", "X signal", "O vec-mismatch", "rawparts-null", "O alloc"], "owned_diffs": ["ub", "result", "contents", "crash", "panic"]},
-    "C17": {"modules": ["MiniVecProof.Props.C17"],
+    "C17": {"modules": ["MiniVecProof.Props.C17", "MiniVecProof.Props.C10DrainFilter", "MiniVecProof.Props.C01Loops"],
             "cases": lambda tier, seed: [("debug", corpus("debug", "C17") + hostile_cases(tier, seed, "debug") + huge_hint_cases("debug") + extend_ref_cases("debug")),
                                          ("release", huge_hint_cases("release") + extend_ref_cases("release"))],
             "owned_oracles": ["O ledger", "O alloc", "X signal 11"], "owned_diffs": ["own", "contents", "result", "alloc", "ub", "crash"],
-            "partial_missing": ["proved: retain under an ARBITRARY (stateful, inconsistent) non-panicking predicate keeps a sublist of live elements, destroys exactly the others once, no allocator traffic (C17_retain_partial, C17_live_distinct); dedup / dedup_by / dedup_by_key under an arbitrary equality script, predicate or key function (C17_dedup_partial); extend / collect with an arbitrary (non-fused) source iterator (C17_extend_partial, C17_collect_partial); clone under an arbitrary Clone (C12_clone_partial); splice with non-fused or lying iterators, drain_filter, resize_with, remove_item, comparisons: scripted callbacks enumerated exhaustively up to length 4 (quick) / 6 (thorough) by the correspondence only"]},
-    "C19": {"modules": ["MiniVecProof.Props.C19"],
+            "partial_missing": ["proved: retain under an ARBITRARY (stateful, inconsistent) non-panicking predicate keeps a sublist of live elements, destroys exactly the others once, no allocator traffic (C17_retain_partial, C17_live_distinct); dedup / dedup_by / dedup_by_key under an arbitrary equality script, predicate or key function (C17_dedup_partial); extend / collect with an arbitrary (non-fused) source iterator (C17_extend_partial, C17_collect_partial); clone under an arbitrary Clone (C12_clone_partial); drain_filter with ANY predicate (C10_drain_filter_partial), resize_with with ANY generator (C17_resize_with_partial); splice with non-fused or lying iterators, remove_item, comparisons: scripted callbacks enumerated exhaustively up to length 4 (quick) / 6 (thorough) by the correspondence only"]},
+    "C19": {"modules": ["MiniVecProof.Props.C19", "MiniVecProof.Props.C19Mem"],
             "cases": lambda tier, seed: [("debug", serde_cases(tier, seed, "debug")), ("release", serde_cases(tier, seed, "release"))] if tier == "thorough"
                      else [("debug", serde_cases(tier, seed, "debug"))],
             "owned_oracles": ["O vec-mismatch", "O ledger", "O alloc", "serde-prealloc", "X signal 11"],
             "owned_diffs": ["result", "contents", "alloc", "own", "cap", "panic", "ub", "crash"],
-            "partial_missing": ["round trip / in-place regimes / error part-way (design parts a, b, d) are hand-modelled (Model/Serde.lean) and tied by correspondence + std Vec's own serde impl as shadow; no theorem yet beyond the bounded pre-allocation (c)"]},
+            "partial_missing": ["(a) C19_deserialize_partial / C19_round_trip_partial, (b)+(d) C19_deserialize_in_place_partial are proved on the hand model Model/Serde.lean for ANY scripted SeqAccess (values, an element error anywhere, an early Ok(None) followed by more items) and ANY claimed length; (c) on regenerated code. The hand model of src/serde.rs and of Serialize is tied to the code by the correspondence (std Vec's own serde impl as shadow) only"]},
     "C18": {"modules": ["MiniVecProof.Props.C18"],
             "cases": lambda tier, seed: [("debug", allocfail_sweep(tier, seed, "debug")), ("release", allocfail_sweep(tier, seed, "release"))],
             "owned_oracles": ["X signal 11", "allocfail-outcome", "O alloc"], "owned_diffs": ["alloc", "panic", "result", "crash", "ub"]},
